@@ -332,3 +332,17 @@ Fixpoint end_state (w : list file) (c : cfg) (declared : list key) (opn : nat) (
   | [] => g
   | o :: r => end_state w c declared (S opn) (fst (run_op w c declared opn g o)) r
   end.
+
+(* ---------------------------------------------------------------- example data used by the non-vacuity examples of Props/C27.v *)
+Definition ex_imp (l : list nat) : import := {| i_plain := Some l; i_rel := false; i_rooted := [] |}.
+(* a.m imports b.m and c.m, b.m imports c.m, c.m imports a.m (cycle + diamond) *)
+Definition ex_world : list file :=
+  [ {| f_imports := [ex_imp [1]; ex_imp [2]]; f_prim := false |};
+    {| f_imports := [ex_imp [2]]; f_prim := false |};
+    {| f_imports := [ex_imp [0]]; f_prim := false |} ].
+Definition ex_cfg : cfg := {| c_prov := PImportURI; c_grepo := true |}.
+Definition k_p : list N := [112]%N.
+Definition k_debug : list N := [100;101;98;117;103]%N.
+Definition ex_op (kw : list (list N * N)) : op :=
+  {| o_entry := EFile 0; o_content := {| f_imports := []; f_prim := false |}; o_is_str := true; o_kw := kw |}.
+
